@@ -485,6 +485,26 @@ example : (ModuleTree.init {} 50 demo initDefault ["params"] 1).result = .ok (11
 /-- `init_apply_agree` instance: apply with `mutable=False`, no RNGs -/
 example : (ModuleTree.apply {} 50 demo .ff demoV [] 1).result = .ok (115, ⟨[], []⟩) := by decide +kernel
 
+/-- a stateful program (counter, sow, child called twice) for `apply_keeps_tree` -/
+def statefulDemo : SProg :=
+  .seq (.child "A" none
+    (.seq (.var "stats" "cnt" [] (.const 0)) <|
+     .seq (.put "stats" "cnt" (.add (.loc 0) (.const 1))) <|
+     .seq (.sow "inter" "h" .arg) <|
+     .ret (.add .arg (.loc 0)))) <|
+  .seq (.call 0 .arg) <| .seq (.call 0 (.loc 0)) <| .ret (.loc 1)
+
+def statefulV : Vars :=
+  { cols := ["stats", "inter"],
+    vars := [(["stats", "A_0", "cnt"], .tensor [] [2]), (["inter", "A_0", "h"], .tup [([], [3]), ([], [3])])] }
+
+/-- hypothesis of `apply_keeps_tree`: init with `mutable=True` returns the whole tree … -/
+example : (ModuleTree.init {} 50 statefulDemo .tt ["params"] 3).result = .ok (4, statefulV) := by decide +kernel
+
+/-- … and an apply that changes the counter and extends the sown tuple has the same two paths -/
+example : ((ModuleTree.apply {} 50 statefulDemo .tt statefulV [] 3).final.vars.map (·.1)) =
+    [["stats", "A_0", "cnt"], ["inter", "A_0", "h"]] := by decide +kernel
+
 /-- hypotheses of `name_clash_raises`: two children named `foo` with something in between -/
 example : (eval {} 10 (.seq (.child "A" (some "foo") .skip) (.seq (.bind (.const 1)) (.child "B" (some "foo") .skip)))
     [] 0 {} (Scope.bind .tt Vars.empty ["params"])).1 = .error .nameInUse := by decide +kernel
